@@ -597,6 +597,32 @@ class Interp(_Base):
             return R(v)
         if name == "cast":
             return R(args[1] if len(args) > 1 else TopV("cast"))
+        if name in ("map", "filter") and len(args) == 2 and not kwargs:
+            items = self._as_items(args[1])
+            if items is None:
+                return R(self.undecided(st, node, name + " over unknown iterable"))
+            done = []
+            cur = [(st, [])]
+            for x in items:
+                nxt = []
+                for s_, acc in cur:
+                    if name == "filter" and isinstance(args[0], NoneV):
+                        outs_ = [(s_, x)]
+                    else:
+                        outs_ = self.call(s_, args[0], [x], {}, node)
+                    for s2, v in outs_:
+                        if isinstance(v, Raised):
+                            done.append((s2, v))
+                        elif name == "map":
+                            nxt.append((s2, acc + [v]))
+                        else:
+                            for s3, t in self.truth(s2, v, node):
+                                if isinstance(t, Raised):
+                                    done.append((s3, t))
+                                else:
+                                    nxt.append((s3, acc + [x] if t else acc))
+                cur = nxt
+            return done + [(s_, TupleV(acc, is_list=True)) for s_, acc in cur]
         if name == "super":
             frame = st.frames[-1]
             selfv = None
@@ -796,6 +822,18 @@ class Interp(_Base):
                 return R(DateV(b))
             if meth in ("weekday",):
                 return R(IntV(0, 6, ("dtfield", b.sym, "weekday")))
+            if meth == "timetuple" and not args:
+                items = []
+                for fld in ("year", "month", "day", "hour", "minute", "second"):
+                    if fld in b.fields and not b.deltas:
+                        items.append(b.fields[fld])
+                    else:
+                        lo, hi = DT_RANGES[fld]
+                        items.append(IntV(lo, hi, ("dtfield", b.sym, fld)))
+                items.append(IntV(0, 6, ("dtfield", b.sym, "weekday")))
+                items.append(IntV(1, 366, ("dtfield", b.sym, "yday")))
+                items.append(IntV(-1, 1, ("dtfield", b.sym, "isdst")))
+                return R(TupleV(items))
             if meth == "isoweekday":
                 return R(IntV(1, 7, ("dtfield", b.sym, "isoweekday")))
             if meth == "replace":
@@ -936,6 +974,12 @@ class Interp(_Base):
     def _as_items(self, v):
         if isinstance(v, TupleV):
             return list(v.items)
+        if isinstance(v, ClassV):
+            # iterating an Enum class: its members in definition order
+            cref = self._enum_class(v.name)
+            if cref is not None and cref.members and cref.node is v.node:
+                return [EnumV(v.name, {nm}) for nm in cref.members]
+            return None
         if isinstance(v, PyV):
             if isinstance(v.value, dict):
                 return [self.lift(k) for k in v.value]
@@ -1414,6 +1458,21 @@ class Interp(_Base):
             self.set_var(st, target.id, v)
             return [(st, ("next",))]
         if isinstance(target, (ast.Tuple, ast.List)):
+            stars = [i for i, t in enumerate(target.elts) if isinstance(t, ast.Starred)]
+            if len(stars) == 1 and isinstance(v, TupleV):
+                # a, b, *rest, z = items
+                k = stars[0]
+                after = len(target.elts) - k - 1
+                if len(v.items) < len(target.elts) - 1:
+                    return [(st, ("raise", self.raised("unpack", "ValueError", stmt, "unpack arity")))]
+                mid = TupleV(list(v.items[k:len(v.items) - after]), is_list=True)
+                items = list(v.items[:k]) + [mid] + (list(v.items[len(v.items) - after:]) if after else [])
+                elts = [t.value if isinstance(t, ast.Starred) else t for t in target.elts]
+                flat = ast.Tuple(elts=elts, ctx=ast.Store())
+                return self.assign(st, flat, TupleV(items), stmt)
+            if stars and isinstance(v, TupleV):
+                self.undecided(st, stmt, "starred unpack")
+                return [(st, ("next",))]
             if isinstance(v, TupleV) and len(v.items) == len(target.elts):
                 cur = [(st, ("next",))]
                 for t, x in zip(target.elts, v.items):
